@@ -1,25 +1,44 @@
 --------------------------- MODULE ClientsIndApa ---------------------------
 (***************************************************************************)
-(* Apalache front end of ClientsInd.tla: the constants are ARBITRARY sets   *)
+(* Apalache front end of ClientsInd.tla: the constants are ARBITRARY sets  *)
 (* (Gen) of at most the stated cardinalities -- any strings, any triples,  *)
 (* not a symmetric or enumerated universe -- constrained by ConstOK only;  *)
-(* IndInit is an arbitrary state (a registry of at most 5 arbitrary        *)
-(* clients) constrained by IndInv only.                                    *)
+(* IndInit is an arbitrary state (a registry of at most N arbitrary        *)
+(* clients) constrained by IndInv only.  Gen(n) bounds every level of the  *)
+(* structure by n (Configs = Gen(3): at most 3 files of at most 3 clients  *)
+(* with at most 3 identifiers each).  Q = quick bounds, T = thorough.      *)
+(* Measured: Q 12 s, T 80 s; (4, 6, 4, 3 files, 5 clients) 10 min.         *)
 (***************************************************************************)
 EXTENDS ClientsInd, Apalache
 
-CInit ==
-    /\ Names = Gen(4)
-    /\ Ident = Gen(6)
-    /\ IdSets = Gen(4)
+CInitQ ==
+    /\ Names = Gen(3)
+    /\ Ident = Gen(4)
+    /\ IdSets = Gen(3)
+    /\ Flags \in [Names -> SUBSET (BOOLEAN \X BOOLEAN)]
+    /\ LeaseAddrs = Gen(2)
+    /\ LeaseMacs = Gen(2)
+    /\ Configs = Gen(2)
+    /\ ConstOK
+
+IndInitQ ==
+    /\ clients = Gen(3)
+    /\ leases \in [LeaseAddrs -> LeaseMacs \cup {NoId}]
+    /\ last \in [op : Ops, out : {"ok", "err"}]
+    /\ IndInv
+
+CInitT ==
+    /\ Names = Gen(3)
+    /\ Ident = Gen(5)
+    /\ IdSets = Gen(3)
     /\ Flags \in [Names -> SUBSET (BOOLEAN \X BOOLEAN)]
     /\ LeaseAddrs = Gen(2)
     /\ LeaseMacs = Gen(2)
     /\ Configs = Gen(3)
     /\ ConstOK
 
-IndInit ==
-    /\ clients = Gen(5)
+IndInitT ==
+    /\ clients = Gen(4)
     /\ leases \in [LeaseAddrs -> LeaseMacs \cup {NoId}]
     /\ last \in [op : Ops, out : {"ok", "err"}]
     /\ IndInv
